@@ -13,7 +13,7 @@
 (*        top : qualified name ]                                                   *)
 (* PTerm: [k:"sig", n] | [k:"slice", n, top, bot] | [k:"cat", parts]       *)
 (***************************************************************************)
-EXTENDS PySeq, Net
+EXTENDS PySeq, Net, FiniteSets
 
 PRange(f) == {f[x] : x \in DOMAIN f}
 PSigBits(path, n, w) == [b \in 1..w |-> <<path, "s", n, b - 1>>]
@@ -52,4 +52,76 @@ PLeafTable(P, mn, path) ==
   UNION { IF inst.of.k = "mod" THEN PLeafTable(P, inst.of.ref, Append(path, inst.n))
           ELSE {<<Append(path, inst.n), inst.of.ref>>}
         : inst \in PRange(m.insts) }
+
+(* ---------------- C06: closure and self-consistency ---------------- *)
+(* P additionally carries  exts : Seq([name, domain, ports : Seq([n, w])])  - the declared external modules, and every
+   instance reference carries `domain` ("" for local references). *)
+PrimPorts(dom, name) ==
+  IF dom = "hdl21.primitives" THEN
+     (CASE name = "Mos" -> <<"d", "g", "s", "b">>
+        [] name = "Bipolar" -> <<"c", "b", "e">>
+        [] name \in {"Diode", "PhysicalResistor", "PhysicalCapacitor", "PhysicalInductor", "PhysicalShort"} -> <<"p", "n">>
+        [] name \in {"ThreeTerminalResistor", "ThreeTerminalCapacitor", "ThreeTerminalInductor"} -> <<"p", "n", "b">>
+        [] OTHER -> <<>>)
+  ELSE IF dom = "vlsir.primitives" THEN
+     (CASE name \in {"vdc", "vpulse", "vsin", "isource", "resistor", "capacitor", "inductor"} -> <<"p", "n">>
+        [] name \in {"vcvs", "ccvs", "vccs", "cccs"} -> <<"p", "n", "cp", "cn">>
+        [] OTHER -> <<>>)
+  ELSE <<>>
+
+Declared(P, dom, name) == {x \in PRange(P.exts) : x.name = name /\ x.domain = dom}
+(* ports of the target of an instance reference: sequence of [n, w]; <<>> if it does not resolve *)
+TargetPorts(P, of) ==
+  IF of.k = "mod" THEN
+     (IF of.ref \in DOMAIN P.mods
+      THEN LET m == P.mods[of.ref] IN [k \in 1..Len(m.ports) |-> [n |-> m.ports[k].n, w |-> IF PHasSig(m, m.ports[k].n) THEN PSigW(m, m.ports[k].n) ELSE 0]]
+      ELSE <<>>)
+  ELSE IF Declared(P, of.domain, of.ref) # {} THEN (CHOOSE x \in Declared(P, of.domain, of.ref) : TRUE).ports
+  ELSE LET pp == PrimPorts(of.domain, of.ref) IN [k \in 1..Len(pp) |-> [n |-> pp[k], w |-> 1]]
+Resolves(P, of) ==
+  IF of.k = "mod" THEN of.ref \in DOMAIN P.mods
+  ELSE Declared(P, of.domain, of.ref) # {} \/ PrimPorts(of.domain, of.ref) # <<>>
+
+NoDup(seq) == Cardinality(PRange(seq)) = Len(seq)
+IndexIn(seq, x) == CHOOSE k \in 1..Len(seq) : seq[k] = x
+
+RECURSIVE TargetFaults(_, _)
+TargetFaults(m, t) ==
+  CASE t.k = "sig"   -> IF PHasSig(m, t.n) THEN {} ELSE {"undeclared_signal"}
+    [] t.k = "slice" -> IF ~PHasSig(m, t.n) THEN {"undeclared_signal"}
+                        ELSE IF t.bot < 0 \/ t.top < t.bot \/ t.top >= PSigW(m, t.n) THEN {"slice_outside_signal"} ELSE {}
+    [] t.k = "cat"   -> (IF Len(t.parts) = 0 THEN {"empty_concat"} ELSE {}) \cup UNION {TargetFaults(m, t.parts[k]) : k \in 1..Len(t.parts)}
+RECURSIVE TargetWidth(_, _)
+TargetWidth(m, t) ==
+  CASE t.k = "sig" -> PSigW(m, t.n) [] t.k = "slice" -> t.top - t.bot + 1
+    [] t.k = "cat" -> IF Len(t.parts) = 0 THEN 0 ELSE TargetWidth(m, t.parts[1]) + TargetWidth(m, [t EXCEPT !.parts = Tail(@)])
+
+InstWF(P, m, inst) ==
+  IF ~Resolves(P, inst.of) THEN {"unresolved_reference"}
+  ELSE LET tp == TargetPorts(P, inst.of)
+           want == {tp[k].n : k \in 1..Len(tp)}
+           got == [k \in 1..Len(inst.conns) |-> inst.conns[k].p]
+       IN (IF PRange(got) # want THEN {"ports_not_connected_exactly"} ELSE {})
+          \cup (IF ~NoDup(got) THEN {"port_connected_twice"} ELSE {})
+          \cup UNION {LET c == inst.conns[k]  tf == TargetFaults(m, c.t) IN
+                      IF tf # {} THEN tf
+                      ELSE IF c.p \in want /\ TargetWidth(m, c.t) # (CHOOSE q \in PRange(tp) : q.n = c.p).w THEN {"connection_width"} ELSE {}
+                      : k \in 1..Len(inst.conns)}
+
+ModWF(P, mn, pos) ==
+  LET m == P.mods[mn] IN
+  (IF ~NoDup([k \in 1..Len(m.sigs) |-> m.sigs[k].n]) THEN {"duplicate_signal"} ELSE {})
+  \cup (IF ~NoDup([k \in 1..Len(m.ports) |-> m.ports[k].n]) THEN {"duplicate_port"} ELSE {})
+  \cup (IF \E k \in 1..Len(m.ports) : ~PHasSig(m, m.ports[k].n) THEN {"port_without_signal"} ELSE {})
+  \cup (IF ~NoDup([k \in 1..Len(m.insts) |-> m.insts[k].n]) THEN {"duplicate_instance"} ELSE {})
+  \cup (IF \E k \in 1..Len(m.sigs) : m.sigs[k].w < 1 THEN {"nonpositive_width"} ELSE {})
+  \cup (IF \E i \in PRange(m.insts) : i.of.k = "mod" /\ i.of.ref \in PRange(P.order) /\ IndexIn(P.order, i.of.ref) >= pos
+        THEN {"use_before_definition"} ELSE {})
+  \cup UNION {InstWF(P, m, i) : i \in PRange(m.insts)}
+
+PkgFaults(P) ==
+  (IF ~NoDup(P.order) THEN {"duplicate_module_name"} ELSE {})
+  \cup (IF ~NoDup([k \in 1..Len(P.exts) |-> <<P.exts[k].domain, P.exts[k].name>>]) THEN {"duplicate_external_module"} ELSE {})
+  \cup UNION {ModWF(P, P.order[k], k) : k \in 1..Len(P.order)}
+PkgWF(P) == PkgFaults(P) = {}
 =============================================================================
